@@ -489,6 +489,8 @@ fn run_case(line: &str) -> Option<String> {
     let kind = *t.get(0)?;
     match kind {
         "req" | "resp" | "hdrs" | "chunk" => run_basic(kind, &t[1..], mem::Place::EndGuard, 0),
+        "wit" => run_basic(t.get(2)?, &t[3..], mem::Place::EndGuard, 0),
+        "nowit" => Some(t[1..].join(" ")),
         "place" => {
             let (pl, al) = place_of(t.get(1)?)?;
             run_basic(t.get(2)?, &t[3..], pl, al)
